@@ -69,6 +69,19 @@ def close(a: float, b: float, rel: float = 1e-9, abs_: float = 0.0) -> bool:
     return abs(a - b) <= max(abs_, rel * max(1.0, abs(a), abs(b)))
 
 
+PROGRESS_FILE = None
+
+
+def progress(case) -> None:
+    """record the case about to be evaluated on the real code (read back if the process dies)"""
+    if PROGRESS_FILE:
+        try:
+            with open(PROGRESS_FILE, 'w') as f:
+                f.write(json.dumps(case, default=str)[:20000])
+        except OSError:
+            pass
+
+
 def canon_hash(obj) -> str:
     return hashlib.sha256(json.dumps(obj, sort_keys=True, default=str).encode()).hexdigest()[:16]
 
@@ -396,6 +409,7 @@ class Result:
     traces_validated: int = 0
 
     def count(self, case, nontrivial: bool = True):
+        progress(case)
         self.evaluations += 1
         if nontrivial:
             self.nontrivial.add(canon_hash(case))
